@@ -1,5 +1,218 @@
 import FcpptModel.Prelude.Proto
-/-! Driver for C02 — placeholder until the property's model is built. -/
+import FcpptModel.Spec.C02
+/-!
+Driver for C02.  Protocol: notes/C02-protocol.md.
+
+* `run  <ce> <sk> <grammar> =<input>`            → `ok <val>` | `fail` | `fatal` | `diverge`
+* `enum <ce> <sk> <grammar> =<alphabet> <maxlen>` → `D <digest> n=.. ok=.. fail=.. fatal=..`
+
+The answer is computed by the implementation-level model `M.parseString` (which the theorems of
+`FcpptProofs/Props/C02.lean` relate to the documented semantics).
+-/
 namespace Fcppt.C02.Drv
-def main : IO Unit := Fcppt.Proto.run (fun _ => "not-built")
+open Fcppt.Proto
+
+def decodeChar (wide : Bool) (c : Char) : Nat :=
+  if c = '_' then 32 else if c = '/' then 10 else if c = '^' then 9
+  else if c = '@' then (if wide then 0x263A else 64) else c.toNat
+
+def decode (wide : Bool) (s : String) : List Nat := s.toList.map (decodeChar wide)
+
+def okParam (s : String) : Bool := s.toList.all fun c => c ≠ '.' ∧ c ≠ ':' ∧ c ≠ ';' ∧ c ≠ ',' ∧ c ≠ '='
+
+def parseSk (wide : Bool) (t : String) : Option Sk :=
+  match t.toList with
+  | ['E'] => some .eps
+  | ['S'] => some (.rep (.cset [32, 10, 9]))
+  | 'R' :: cs => some (.rep (.cset (cs.map (decodeChar wide))))
+  | ['L', c] => some (.lit (decodeChar wide c))
+  | 'Q' :: c :: cs => some (.seq (.lit (decodeChar wide c)) (.rep (.cset (cs.map (decodeChar wide)))))
+  | 'C' :: cs => some (.cset (cs.map (decodeChar wide)))
+  | _ => none
+
+/-- split `name:param` -/
+def nameParam (t : String) : String × Option String :=
+  match t.splitOn ":" with
+  | [n] => (n, none)
+  | [n, p] => (n, some p)
+  | _ => ("?", none)
+
+/-- prefix-notation parser; `nrules` bounds `ref:<i>` -/
+def parseP (wide : Bool) (nrules : Nat) : Nat → List String → Option (P × List String)
+  | 0, _ => none
+  | _, [] => none
+  | fuel+1, t :: ts =>
+    let un (k : P → P) : Option (P × List String) :=
+      match parseP wide nrules fuel ts with
+      | some (a, r) => some (k a, r)
+      | none => none
+    let bin (k : P → P → P) : Option (P × List String) :=
+      match parseP wide nrules fuel ts with
+      | some (a, r) => match parseP wide nrules fuel r with
+        | some (b, r') => some (k a b, r')
+        | none => none
+      | none => none
+    match nameParam t with
+    | ("eps", none) => some (.eps, ts)
+    | ("fail", none) => some (.fail, ts)
+    | ("any", none) => some (.any, ts)
+    | ("lit", some p) => match decode wide p with
+      | [c] => some (.lit c, ts)
+      | _ => none
+    | ("cset", some p) => some (.cset (decode wide p), ts)
+    | ("compl", some p) => some (.compl (decode wide p), ts)
+    | ("str", some p) => some (.str (decode wide p), ts)
+    | ("uint", none) => some (.uint 65535, ts)
+    | ("int", none) => some (.int 32767, ts)
+    | ("seq", none) => bin .seq
+    | ("alt", none) => bin .alt
+    | ("sep", none) => bin (fun a b => .sep a (.ignore b))
+    | ("rep", none) => un .rep
+    | ("plus", none) => un .plus
+    | ("opt", none) => un .opt
+    | ("not", none) => un (fun a => .not (.ignore a))
+    | ("fatal", none) => un .fatal
+    | ("lex", none) => un .lexeme
+    | ("ign", none) => un .ignore
+    | ("named", none) => un .named
+    | ("rec", none) => un (.conv 9)
+    | ("conv", some k) => match k.toNat? with
+      | some k => if k < 3 then un (.conv k) else none
+      | none => none
+    | ("cif", some k) => match k.toNat? with
+      | some k => if k < 3 then un (.convIf k) else none
+      | none => none
+    | ("ref", some i) => match i.toNat? with
+      | some i => if i < nrules then some (.ref i, ts) else none
+      | none => none
+    | ("list", none) =>
+      match parseP wide nrules fuel ts with
+      | some (o, r1) => match parseP wide nrules fuel r1 with
+        | some (a, r2) => match parseP wide nrules fuel r2 with
+          | some (s, r3) => match parseP wide nrules fuel r3 with
+            | some (c, r4) => some (.list (.ignore o) a (.ignore s) (.ignore c), r4)
+            | none => none
+          | none => none
+        | none => none
+      | none => none
+    | _ => none
+
+def parseRule (wide : Bool) (nrules : Nat) (r : String) : Option P :=
+  let toks := r.splitOn "."
+  if toks.all (fun t => okParam ((nameParam t).2.getD "")) then
+    match parseP wide nrules (toks.length + 1) toks with
+    | some (p, []) => some p
+    | _ => none
+  else none
+
+def parseGrammar (wide : Bool) (t : String) : Option (List P) :=
+  let rs := t.splitOn ";"
+  rs.mapM (parseRule wide rs.length)
+
+def isList : Val → Bool
+  | .nil => true
+  | .cons _ t => isList t
+  | _ => false
+
+def listLen : Val → Nat
+  | .cons _ t => listLen t + 1
+  | _ => 0
+
+def fn (k : Nat) (v : Val) : Val :=
+  match k, v with
+  | 0, v => .tag 0 v
+  | 1, .pair a b => .pair b a
+  | 1, v => .tag 1 v
+  | 2, v => if isList v then .int (listLen v) else .tag 2 v
+  | _, v => v                                   -- 9: identity (`rec`)
+
+def fnIf (k : Nat) (v : Val) : Except Bool Val :=
+  match k with
+  | 0 => if v = .ch 97 then .ok (.tag 10 v) else .error false
+  | 1 => if isList v ∧ listLen v % 2 = 0 then .ok (.tag 11 v) else .error false
+  | _ => if v = .ch 98 then .error true else .ok v
+
+def mkG (rules : List P) : G := { rules := fun i => rules.getD i .fail, fn := fn, fnIf := fnIf }
+
+partial def showVal : Val → String
+  | .unit => "u"
+  | .ch c => s!"c{c}"
+  | .int i => s!"i{i}"
+  | .nil => "[]"
+  | .cons h t => "[" ++ showVal h ++ showTail t
+  | .pair a b => "(" ++ showVal a ++ "," ++ showVal b ++ ")"
+  | .none => "N"
+  | .some v => "S(" ++ showVal v ++ ")"
+  | .inl v => "L(" ++ showVal v ++ ")"
+  | .inr v => "R(" ++ showVal v ++ ")"
+  | .tag k v => s!"T{k}(" ++ showVal v ++ ")"
+where
+  showTail : Val → String
+    | .nil => "]"
+    | .cons h t => "," ++ showVal h ++ showTail t
+    | v => "|" ++ showVal v ++ "]"
+
+def fuel : Nat := 3000
+
+def runLine (g : G) (p : P) (sk : Sk) (inp : List Nat) : String :=
+  match M.parseString g fuel p sk inp with
+  | none => "diverge"
+  | some (.ok v) => "ok " ++ showVal v
+  | some (.err false) => "fail"
+  | some (.err true) => "fatal"
+
+def strings (alpha : List Nat) : Nat → List (List Nat)
+  | 0 => [[]]
+  | n+1 => alpha.flatMap fun c => (strings alpha n).map (c :: ·)
+
+structure Acc where
+  h : UInt64 := fnvInit
+  n : Nat := 0
+  ok : Nat := 0
+  fail : Nat := 0
+  fatal : Nat := 0
+  other : Nat := 0
+
+def enumLine (g : G) (p : P) (sk : Sk) (alpha : List Nat) (maxlen : Nat) : String :=
+  let acc := (List.range (maxlen + 1)).foldl (fun (acc : Acc) len =>
+    (strings alpha len).foldl (fun (acc : Acc) inp =>
+      let l := runLine g p sk inp
+      let acc := { acc with h := fnv acc.h (l ++ "\n"), n := acc.n + 1 }
+      if l.startsWith "ok" then { acc with ok := acc.ok + 1 }
+      else if l = "fail" then { acc with fail := acc.fail + 1 }
+      else if l = "fatal" then { acc with fatal := acc.fatal + 1 }
+      else { acc with other := acc.other + 1 }) acc) ({} : Acc)
+  s!"D {hex64 acc.h} n={acc.n} ok={acc.ok} fail={acc.fail} fatal={acc.fatal}" ++
+    (if acc.other = 0 then "" else s!" other={acc.other}")
+
+/-- common front part of both ops: char type + entry point, skipper, grammar -/
+def setup (ce sk gr : String) : Option (Bool × Sk × G × P) :=
+  match ce.toList with
+  | [c, e] =>
+    if (c = 'c' ∨ c = 'w') ∧ (e = 'p' ∨ e = 'h' ∨ e = 'g') then
+      let wide := c = 'w'
+      match parseSk wide sk, parseGrammar wide gr with
+      | some sk, some (p :: rs) =>
+        if e = 'p' ∧ sk ≠ .eps then none else some (wide, sk, mkG (p :: rs), p)
+      | _, _ => none
+    else none
+  | _ => none
+
+def handle (toks : List String) : String :=
+  match toks with
+  | ["run", ce, sk, gr, inp] =>
+    match setup ce sk gr, inp.toList with
+    | some (wide, sk, g, p), '=' :: cs =>
+      if okParam (String.ofList cs) then runLine g p sk (cs.map (decodeChar wide)) else "bad-op"
+    | _, _ => "bad-op"
+  | ["enum", ce, sk, gr, alpha, maxlen] =>
+    match setup ce sk gr, alpha.toList, maxlen.toNat? with
+    | some (wide, sk, g, p), '=' :: cs, some n =>
+      if okParam (String.ofList cs) ∧ n ≤ 10 ∧ 0 < cs.length ∧ cs.length ≤ 6 then
+        enumLine g p sk (cs.map (decodeChar wide)) n else "bad-op"
+    | _, _, _ => "bad-op"
+  | _ => "bad-op"
+
+def main : IO Unit := Proto.run handle
+
 end Fcppt.C02.Drv
